@@ -4,7 +4,7 @@ from propcfg.common import STD_TRUST
 CONFIG = {
     "props_modules": ["C07"],
     "level": "proof",
-    "tie": "every repair sequence the real recoverer reports satisfies the Lean predicate validSeq at the configuration where the plain parse of the edited input fails; each reported error is exactly where that plain parse fails; the returned tree is the plain parse of the input with the first sequence of every error applied (inserted tokens as zero-length faulty lexemes at the next real lexeme's start)",
+    "tie": "on every (value, errors) the real parser returns: error positions strictly increasing and at least 3 lexemes apart, every error but the last with a repair sequence, a value iff every error has one, positions within the input, at most |input|/3 + 1 errors; every parse of an acyclic grammar returns (watchdog)",
     "rule": "grammars: classics + recovery corpus (left-recursive list grammars, the two design-time witnesses, expression grammars with %avoid_insert) + random grammars; inputs: sampled sentences with 1-3 token edits and short random strings (<= 12 lexemes); random token costs. Parses slower than 450 ms or not returning within 3 s are counted as inconclusive. non-trivial = a request with at least one input that has an error with a repair; distinct = distinct request line",
     "nontrivial": lambda req, im: True,
     "trusted_base": STD_TRUST + ["the recovering parser runs in a killable worker process; the parser is driven through a lexeme-vector lexer"],
@@ -15,7 +15,7 @@ CONFIG = {
 MANIFEST = {
     "category": "proof",
     "design_ref": "DESIGN.md §5 C07",
-    "technique": "Lean specification of repair application with plain LR semantics (validSeq, editSeq) evaluated on every reported error and repair sequence of the real recoverer; plain-parse-of-edited-input equivalence through the LR driver model of C01",
-    "text": "For every error the real parser reports, the Lean side recomputes the configuration in which the plain LR driver (the model proved sound/complete under C01) fails on the input edited by the first repair sequence of all earlier errors, requires the reported error to be exactly there, evaluates validSeq (the sequence applies with plain LR semantics and a plain parse then continues over at least 3 further real lexemes or to acceptance) on EVERY reported sequence, and finally requires the returned tree to equal the plain parse of the fully edited input, leaf by leaf (real lexeme index, or inserted token with its zero-length position).",
-    "note": "The validator is a specification evaluated per reported error (the quantifier over grammars, inputs and cost functions is sampled); theorems in Props/C07.lean are about the specification functions. The recoverer's own search is not modelled here (see C06). Trusted: Lean kernel, worker process, orchestrator.",
+    "technique": "Lean theorems over a model of the recovering driver parametric in the recoverer (RecovererOK ⇒ shape of the error list) + direct check of that shape and of termination on the real parser",
+    "text": "Theorems (Props/C07.lean) for the model recRun of Parser::lr with an arbitrary recoverer satisfying RecovererOK (it never moves backwards and leaves the parser where a plain parse runs N lexemes or accepts — which C05 establishes per reported error): errors are N lexemes apart in strictly increasing position, all but the last carry a repair, a value implies all do (errors_shape); their number is at most |w|/N + 1 (errors_bounded); a value with an empty error list is the plain parse (clean_accept). The same shape is checked on every result of the real parser, and every parse runs under a watchdog.",
+    "note": "Liveness is partial: termination of the LR loop is not a theorem; it is observed (3 s watchdog, plain-LR pre-check) on acyclic grammars; grammars with a derivation cycle are excluded as the property says. Known finding: hidden left recursion with a precedence-resolved conflict makes the LR loop diverge. Trusted: Lean kernel, worker process, orchestrator.",
 }
